@@ -572,11 +572,11 @@ PROPS["C16"] = {
         leg("allotment-bfs", "c16_allot", (8, 12), {}, flags=(), what="BFS over the real market: all reachable demand/limit states of three arenas"),
         leg("rt-slots", "c16_rt", (1, 2), {"kind": "slots"}, what="task_arena(2,1): two external entrants + main execute + enqueue", weight=3.0),
         leg("rt-arena1", "c16_rt", (1, 2), {"kind": "arena1"}, what="task_arena(1): three external threads call execute", weight=2.0),
-        leg("rt-enqueue1", "c16_rt", (2, 3), {"kind": "enqueue1"}, what="task_arena(1) with enqueued work: the single extra worker"),
+        leg("rt-enqueue1", "c16_rt", (6, 8), {"kind": "enqueue1"}, what="task_arena(1) with enqueued work: the single extra worker"),
         leg("rt-observer", "c16_rt", (1, 2), {"kind": "observer"}, what="observer entry/exit pairing on every thread", weight=3.0),
         leg("rt-isolate", "c16_rt", (2, 3), {"kind": "isolate"}, what="waiter inside isolate never runs outer tasks"),
         leg("rt-gc_isolate", "c16_rt", (2, 3), {"kind": "gc_isolate", "L": 1}, what="max_allowed_parallelism 1, nothing enqueued: an isolated waiter skips foreign tasks in its pool (the 'wakeup' advertisement) - still no worker may run user work"),
-        leg("rt-gc_resume", "c16_rt", (2, 3), {"kind": "gc_resume", "L": 1}, what="max_allowed_parallelism 1: task::resume from a foreign thread (another 'wakeup' site) - still no worker may run user work"),
+        leg("rt-gc_resume", "c16_rt", (4, 6), {"kind": "gc_resume", "L": 1}, what="max_allowed_parallelism 1: task::resume from a foreign thread (another 'wakeup' site) - still no worker may run user work"),
         leg("rt-isolate_nested", "c16_rt", (1, 2), {"kind": "isolate_nested"}, what="inside scope S, after a nested isolate scope returned, the thread waits for a task of S that runs on the worker while its pool holds a task spawned outside S", weight=2.0),
         leg("rt-isolate_wait", "c16_rt", (1, 2), {"kind": "isolate_nested", "nested": 0}, what="same without the nested scope", weight=2.0),
         leg("rt-isolate_proxy", "c16_rt", (1, 2), {"kind": "isolate_proxy"}, what="two workers: one holds a stolen task of the isolation scope, the other runs a non-isolated parallel_for with static_partitioner (affinity proxies in its pool) while the scope owner waits inside isolate with nothing to do: it must not run a chunk that arrives as a proxy", weight=3.0),
